@@ -92,6 +92,15 @@ def run(ctx):
                 return [rnd.choice([97, 98, 99, 233, 0x20AC, 0x1F600]) for _ in range(n)]
             a = rs(); b = a[:rnd.randint(0, len(a))] + rs() if rnd.random() < 0.5 else rs()
             add(rnd.choice(opgen.STORES), rnd.choice(CMP), '(cl' + ''.join(f' {c}' for c in a) + ')', '(cl' + ''.join(f' {c}' for c in b) + ')')
+        # slices of every sequence kind against each other: slices of different kinds are "any other combination" (false, never
+        # a failure); slices of the same kind must at least not fail
+        SLICES = ['(sl (cl 97 98 99 100) (r (i 1) (i 3)))', '(sl (bl 1 2 3 4) (r (i 1) (i 3)))', '(sl (l (i 1) (i 2) (i 3)) (r (i 0) (i 2)))',
+                  '(sl (cat (l (i 1)) (i 2)) (r (i 0) (i 1)))', '(sl (cl) (r (i 0) (i 0)))', '(sl (bl 7) (r (i 0) (i 5)))']
+        for instr in CMP:
+            for a in SLICES:
+                for b in SLICES:
+                    for st in opgen.STORES:
+                        add(st, instr, a, b)
         # every cross-type pair (complete type matrix with all representatives)
         for instr in CMP:
             for lt in opgen.TYPES:
@@ -116,6 +125,11 @@ def run(ctx):
         if pi['kind'] != 'ok':
             ctx.fail('oracle', c, impl=ri, model=rm, expect=f'ok {exp}', note='a comparison must never fail')
             continue
+        if is_slice and a.startswith('(sl ') and b.startswith('(sl ') and a.split(' ')[1].strip('()') != b.split(' ')[1].strip('()'):
+            # slices over different kinds of value: false, one result, no host call
+            if pi['top'] != 'F' or pi['regs'] != 1:
+                ctx.fail('oracle', c, impl=ri, model=rm, expect='ok F regs=1', note='slices of different kinds of value are not ordered: all four comparisons yield false')
+                continue
         if not is_slice and (pi['top'] != exp or pi['regs'] != 1 or pi['log']):
             ctx.fail('oracle', c, impl=ri, model=rm, expect=f'ok {exp} regs=1 log=', note='comparison result differs from the natural order / false on foreign pairs')
             continue
@@ -132,4 +146,4 @@ def run(ctx):
         ctx.sample({'case': c[2:], 'impl': ri, 'model': rm}, cap=80)
     ctx.trusted += ['FloatOps F / FloatOrderLaws F: IEEE-754 order is a hypothesis of the mixed-number theorems (not formalised); sampled against hardware by this suite',
                     'value-level model of comparison.rs (Abs/Ops.lean compareVals/cmpList) tied to the code by the OP suite on both data implementations',
-                    'slice operands are outside the model and outside the property']
+                    'slice operands are outside the model; the check requires that comparing them never fails and that slices over different kinds of value compare false']
